@@ -486,4 +486,180 @@ theorem spatial_extent_pos (m : Mask) (T I J : Nat) : ∀ e ∈ spatialExtent m 
 
 example : spatialExtent (fun t i _ => decide (t = 1 ∨ (t = 2 ∧ i = 0))) 4 2 3 = [1, 1 / 2] := by decide +kernel
 
+/-! ### spatiotemporal clusters (labelling = oracle with `LabelLaw`; the harness checks the law on scipy's labels) -/
+
+/-- **clusters_conserve**: if the labelling uses the labels `1..k`, each at least once, and is positive exactly on
+    the instances, then the table has `k` rows, every cluster size is positive and the sizes sum to the total number of
+    instances. -/
+theorem clusters_conserve (m : Mask) (lab : Nat → Nat → Nat → Nat) (T I J k : Nat) (law : LabelLaw m lab T I J k) :
+    (clusterSizes m lab T I J).length = k ∧ (∀ s ∈ clusterSizes m lab T I J, 0 < s) ∧
+    (clusterSizes m lab T I J).sum = total m T I J := by
+  have hk := maxLabel_eq m lab T I J k law
+  unfold clusterSizes
+  rw [hk]
+  refine ⟨by simp, ?_, ?_⟩
+  · intro s hs
+    rw [List.mem_map] at hs
+    obtain ⟨l, hl, rfl⟩ := hs
+    rw [List.mem_range] at hl
+    obtain ⟨t, i, j, ht, hi, hj, hlab⟩ := law.nonempty (l + 1) (by omega) (by omega)
+    have hm : m t i j = true := (law.pos_iff t i j ht hi hj).mp (by omega)
+    have hi1 : inst m t i j = 1 := by simp [inst, hm]
+    have : (if lab t i j = l + 1 then inst m t i j else 0) ≤
+        sum3 T I J (fun t i j => if lab t i j = l + 1 then inst m t i j else 0) :=
+      single_le_sum3 T I J (fun t i j => if lab t i j = l + 1 then inst m t i j else 0) t i j ht hi hj
+    rw [if_pos hlab, hi1] at this
+    unfold clusterSize
+    omega
+  · change sumR k (fun l => clusterSize m lab T I J (l + 1)) = _
+    unfold clusterSize total
+    rw [sumR_sum3_comm]
+    apply sum3_congr
+    intro t i j ht hi hj
+    rw [sumR_ite_succ]
+    by_cases hm : m t i j = true
+    · have h1 := (law.pos_iff t i j ht hi hj).mpr hm
+      have h2 := law.le_k t i j ht hi hj
+      rw [if_pos ⟨by omega, h2⟩]
+    · have : inst m t i j = 0 := by simp [inst, hm]
+      rw [this]; split_ifs <;> rfl
+
+/-- F8 (repaired): the background label 0 carries no instance, so a table that starts at label 0 has a
+    cluster of size 0 -/
+theorem legacy_cluster_label0 (m : Mask) (lab : Nat → Nat → Nat → Nat) (T I J k : Nat) (law : LabelLaw m lab T I J k) :
+    clusterSize m lab T I J 0 = 0 := by
+  unfold clusterSize
+  have : sum3 T I J (fun t i j => if lab t i j = 0 then inst m t i j else 0) = sum3 T I J (fun _ _ _ => 0) := by
+    apply sum3_congr
+    intro t i j ht hi hj
+    by_cases h0 : lab t i j = 0
+    · have : ¬ m t i j = true := fun hm => by have := (law.pos_iff t i j ht hi hj).mpr hm; omega
+      simp [h0, inst, this]
+    · simp [h0]
+  rw [this]
+  unfold sum3 sumIJ
+  simp [sumR_const_zero]
+
+-- a labelling that satisfies the law: two clusters on a 3 × 1 × 2 grid
+def exMask : Mask := fun t _ j => decide (t = 0 ∨ (t = 2 ∧ j = 1))
+def exLab : Nat → Nat → Nat → Nat := fun t _ j => if t = 0 then 1 else if t = 2 ∧ j = 1 then 2 else 0
+example : LabelLaw exMask exLab 3 1 2 2 where
+  le_k := by intro t i j _ _ _; unfold exLab; split_ifs <;> omega
+  pos_iff := by
+    intro t i j ht hi hj
+    have : t = 0 ∨ t = 1 ∨ t = 2 := by omega
+    have : j = 0 ∨ j = 1 := by omega
+    rcases ‹t = 0 ∨ t = 1 ∨ t = 2› with rfl | rfl | rfl <;> rcases ‹j = 0 ∨ j = 1› with rfl | rfl <;>
+      simp [exLab, exMask]
+  nonempty := by
+    intro l h1 h2
+    have : l = 1 ∨ l = 2 := by omega
+    rcases this with rfl | rfl
+    · exact ⟨0, 0, 0, by omega, by omega, by omega, by simp [exLab]⟩
+    · exact ⟨2, 0, 1, by omega, by omega, by omega, by simp [exLab]⟩
+example : clusterSizes exMask exLab 3 1 2 = [2, 1] ∧ total exMask 3 1 2 = 3 := by decide
+
+/-! ## 4. Accumulative metrics -/
+
+/-- **accumulative_filter**: `filter_threshold_exceedances` keeps exactly the values that meet the condition and is
+    zero elsewhere -/
+theorem accumulative_filter (x : Data) (m : Mask) (t i j : Nat) :
+    (m t i j = true → filt x m t i j = x t i j) ∧ (m t i j = false → filt x m t i j = 0) := by
+  unfold filt; constructor <;> intro h <;> simp [h]
+
+/-- **accumulative_sum**: the amount at a location is the sum of the data over exactly the time steps that meet the
+    condition -/
+theorem accumulative_sum (x : Data) (m : Mask) (T i j : Nat) :
+    sumR T (fun t => filt x m t i j) = (((List.range T).filter (fun t => m t i j)).map (fun t => x t i j)).sum := by
+  rw [sum_filter_range]; rfl
+
+theorem sumR_nonneg (n : Nat) (f : Nat → Rat) (h : ∀ k, k < n → 0 ≤ f k) : 0 ≤ sumR n f := by
+  induction n with
+  | zero => simp
+  | succ n ih =>
+    rw [sumR_succ]
+    have := ih (fun k hk => h k (by omega))
+    have := h n (by omega)
+    linarith
+
+theorem sumR_mono (n : Nat) (f g : Nat → Rat) (h : ∀ k, k < n → f k ≤ g k) : sumR n f ≤ sumR n g := by
+  induction n with
+  | zero => simp
+  | succ n ih =>
+    rw [sumR_succ, sumR_succ]
+    have := ih (fun k hk => h k (by omega))
+    have := h n (by omega)
+    linarith
+
+/-- **accumulative_percent**: for non-negative data with a positive total the percentage of the total amount beyond
+    the threshold is defined, is `100 · (amount over the steps meeting the condition) / total`, and lies in `[0, 100]`.
+    (A zero total is `0/0`: NaN in numpy, `none` here.) -/
+theorem accumulative_percent (x : Data) (m : Mask) (T i j : Nat) (hx : ∀ t, t < T → 0 ≤ x t i j)
+    (hpos : 0 < sumR T (fun t => x t i j)) :
+    ∃ p, percent x m T i j = some p ∧
+      p = 100 * (((List.range T).filter (fun t => m t i j)).map (fun t => x t i j)).sum / sumR T (fun t => x t i j) ∧
+      0 ≤ p ∧ p ≤ 100 := by
+  have hne : sumR T (fun t => x t i j) ≠ 0 := ne_of_gt hpos
+  refine ⟨100 * sumR T (fun t => filt x m t i j) / sumR T (fun t => x t i j), ?_, ?_, ?_, ?_⟩
+  · unfold percent; simp only [hne, if_false]
+  · rw [accumulative_sum]
+  · have : 0 ≤ sumR T (fun t => filt x m t i j) :=
+      sumR_nonneg T _ (fun t ht => by unfold filt; split_ifs; exact hx t ht; exact le_refl _)
+    positivity
+  · have : sumR T (fun t => filt x m t i j) ≤ sumR T (fun t => x t i j) :=
+      sumR_mono T _ _ (fun t ht => by unfold filt; split_ifs; exact le_refl _; exact hx t ht)
+    rw [div_le_iff₀ hpos]; linarith
+
+theorem percent_none_iff (x : Data) (m : Mask) (T i j : Nat) :
+    percent x m T i j = none ↔ sumR T (fun t => x t i j) = 0 := by
+  unfold percent; simp only []; split_ifs with h <;> simp [h]
+
+example : percent (fun t _ _ => (t : Rat)) (fun t _ _ => decide ((t : Rat) > 2)) 5 0 0 = some 70 := by decide +kernel
+example : percent (fun _ _ _ => 0) (fun _ _ _ => true) 5 0 0 = none := by decide +kernel
+
+/-- **accumulative_annual**: the annual value is the sum of the data over exactly the time steps of that year that
+    meet the condition … -/
+theorem accumulative_annual (x : Data) (m : Mask) (yr : Nat → Int) (T : Nat) (y : Int) (i j : Nat) :
+    annualValue x m yr T y i j =
+      (((List.range T).filter (fun t => decide (yr t = y) && m t i j)).map (fun t => x t i j)).sum := by
+  unfold annualValue
+  rw [sumYear_eq, sum_filter_range]
+  apply sumR_congr; intro t _
+  unfold filt
+  by_cases h1 : yr t = y <;> cases h2 : m t i j <;> simp [h1, h2]
+
+/-- … and the annual values add up to the whole amount beyond the threshold (any number of years ≥ 1) -/
+theorem accumulative_annual_conserve (x : Data) (m : Mask) (yr : Nat → Int) (T i j : Nat) :
+    ((unique (yearList yr T)).map (fun y => annualValue x m yr T y i j)).sum = sumR T (fun t => filt x m t i j) := by
+  unfold annualValue
+  exact sum_years _ yr T _ (nodup_unique _) (fun t ht => yr_mem_unique yr T t ht)
+
+/-- **accumulative_intensity**: the intensity index is defined iff at least one time step meets the condition (none:
+    `0/0`, NaN in numpy), and then it is the mean of the data over exactly those steps -/
+theorem accumulative_intensity (x : Data) (m : Mask) (T i j : Nat) :
+    (intensity x m T i j = none ↔ countAt m T i j = 0) ∧
+    (∀ v, intensity x m T i j = some v →
+      v = Py.mean (((List.range T).filter (fun t => m t i j)).map (fun t => x t i j))) := by
+  have hlen : ((List.range T).filter (fun t => m t i j)).length = countAt m T i j := by
+    unfold countAt
+    induction T with
+    | zero => simp
+    | succ T ih =>
+      rw [List.range_succ, List.filter_append, List.length_append, ih, sumR_succ]
+      cases h : m T i j <;> simp [inst, h]
+  have hc : sumR T (fun t => inst m t i j) = countAt m T i j := rfl
+  unfold intensity
+  simp only [hc]
+  constructor
+  · split_ifs with h <;> simp [h]
+  · intro v hv
+    split_ifs at hv with h
+    simp only [Option.some.injEq] at hv
+    rw [← hv]
+    unfold Py.mean
+    rw [List.length_map, hlen, accumulative_sum]
+
+example : intensity (fun t _ _ => (t : Rat)) (fun t _ _ => decide ((t : Rat) > 2)) 5 0 0 = some (7 / 2) := by decide +kernel
+example : intensity (fun t _ _ => (t : Rat)) (fun t _ _ => decide ((t : Rat) > 9)) 5 0 0 = none := by decide +kernel
+
 end Props.C19
